@@ -849,7 +849,7 @@ def main(ctx, replay):
                 nontrivial.add(("wire", c["_name"]))
                 dist["wire_sends_per_attempt"][c["_name"]] = r["per_call"]
                 added = sorted(set(r.get("header_names") or []) - set(c["headers"]) - {"User-Agent", "Content-Length", "Accept-Encoding", "Content-Type"})
-                if any(n != 1 for n in r["per_call"]):
+                if any(n > 1 for n in r["per_call"]):      # more sends than attempts (0 = the attempt failed before anything was written)
                     C.report(ctx, "wire-replay:" + c["_name"],
                              "one attempt of the real HTTPDeliverer put the message on the wire %s times (per attempt; the target read it and dropped a re-used "
                              "keep-alive connection): the target can receive a message more often than retry.max+1 times, and more often than attempts are recorded"
